@@ -1019,6 +1019,8 @@ impl<'source, 'trivia> GroupBuilder<'source, 'trivia> {
 
     fn strip_trailing_breaks(&mut self) {
         while self.items.last().is_some_and(|item| match item {
+            // The start of an indented block needs to be kept, otherwise the block loses its indent
+            FormatItem::GroupBreak(GroupBreak::StartBlock) => false,
             FormatItem::GroupBreak(group_break) => group_break.needs_linebreak(false, false, false),
             _ => false,
         }) {
